@@ -120,6 +120,28 @@ class Gen:
         return out
 
 
+def crowd_traces():
+    """a source that was heard long ago reboots after more than a thousand other sources have been heard: its services
+    must be reported stopped before the offers of the revealing message (no bounded table may forget it)"""
+    from ..monpass import add_adv
+    out = []
+    for n in (40, 1100):
+        others = sdenv.hosts(n)
+        sched = [{"t": 0, "j": 0, "op": "watch", "lst": "L1", "flt": "ALL"},
+                 {"t": 0, "j": 1, "op": "rx", "src": "a1", "mc": True, "sid": 5, "rb": True, "uc": True,
+                  "es": [{"ty": "offer", "svc": "s1", "ttl": FOREVER, "opts": []}]}]
+        for i, h in enumerate(others):
+            sched.append({"t": 1, "j": 0, "op": "rx", "src": h, "mc": True, "sid": 1 + i % 5, "rb": True, "uc": True,
+                          "es": [{"ty": "offer", "svc": "s3", "ttl": 0, "opts": []}]})
+        sched.append({"t": 2, "j": 0, "op": "rx", "src": "a1", "mc": True, "sid": 1, "rb": True, "uc": True,
+                      "es": [{"ty": "offer", "svc": "s2", "ttl": 3, "opts": []}]})
+        ev, missed = run_schedule(sched)
+        cfg = mon_cfg()
+        cfg["srcs"] = SRCS + others
+        out.append({"cfg": cfg, "ev": add_adv(ev), "sched": sched, "missed": missed})
+    return out
+
+
 def random_traces(seed, count, length):
     from ..monpass import add_adv
     traces = []
@@ -197,7 +219,7 @@ def check(ctx):
             runs.append((name, r.distinct, r.generated))
     # Mode 3: monitor verdict on executions of the real code
     n, length = ctx.pick((300, 14), (4000, 24))
-    traces = random_traces(ctx.seed, n, length)
+    traces = random_traces(ctx.seed, n, length) + crowd_traces()
     if any(t["missed"] for t in traces):
         ctx.note("schedule positions missed in %d traces" % sum(bool(t["missed"]) for t in traces))
     bad, mstates = judge(ctx, traces, "random histories")
@@ -237,8 +259,12 @@ def check(ctx):
 
 def replay(ctx, rep):
     sched = rep["payload"]["sched"]
+    names = sorted({i["src"] for i in sched if i.get("src", "a").startswith("h")})
+    sdenv.hosts(1 + max([int(x[1:]) for x in names] + [0]))
     ev, missed = run_schedule(sched)
-    tr = {"cfg": mon_cfg(), "ev": monpass.add_adv(ev), "sched": sched}
+    cfg = mon_cfg()
+    cfg["srcs"] = SRCS + names
+    tr = {"cfg": cfg, "ev": monpass.add_adv(ev), "sched": sched}
     bad, _ = judge(ctx, [tr], "replay")
     print("replay: %s" % ("violation reproduced" if bad else "no violation on the current tree"))
     return 1 if bad else 0
